@@ -6,6 +6,7 @@ import (
 	"errors"
 	"fmt"
 	"io"
+	"math"
 
 	"github.com/kklash/bitcoinlib/constants"
 )
@@ -122,17 +123,19 @@ func PushNumber(n int64) []byte {
 
 	/***** This section copied from btcsuite/btcd/txscript/scriptnum.go *****/
 	// Take the absolute value and keep track of whether it was originally
-	// negative.
+	// negative. The absolute value is held in a uint64, because that of
+	// math.MinInt64 does not fit an int64.
 	isNegative := n < 0
+	magnitude := uint64(n)
 	if isNegative {
-		n = -n
+		magnitude = -magnitude
 	}
 
 	// Encode to little endian.
-	result := make([]byte, 0, 8)
-	for n > 0 {
-		result = append(result, byte(n&0xff))
-		n >>= 8
+	result := make([]byte, 0, 9)
+	for magnitude > 0 {
+		result = append(result, byte(magnitude&0xff))
+		magnitude >>= 8
 	}
 
 	// When the most significant byte already has the high bit set, an
@@ -182,13 +185,15 @@ func ReadNumber(r io.Reader) (int64, error) {
 		return 0, err
 	}
 
-	if len(numBytes) > 8 {
+	// Nine bytes are needed for numbers whose magnitude has its 64th bit set:
+	// the ninth byte then carries nothing but the sign.
+	if len(numBytes) > 9 {
 		return 0, ErrGreaterThanMaxInt
 	}
 
 	var (
 		isNegative bool
-		value      int64
+		magnitude  uint64
 	)
 
 	for i := 0; i < len(numBytes); i++ {
@@ -197,12 +202,25 @@ func ReadNumber(r io.Reader) (int64, error) {
 			byteValue -= 0x80
 			isNegative = true
 		}
-		value += int64(byteValue) << (8 * uint(i))
+		if i == 8 {
+			if byteValue != 0 {
+				return 0, ErrGreaterThanMaxInt
+			}
+			break
+		}
+		magnitude |= uint64(byteValue) << (8 * uint(i))
 	}
 
 	if isNegative {
-		value = -value
+		if magnitude > 1<<63 {
+			return 0, ErrGreaterThanMaxInt
+		}
+		return int64(-magnitude), nil
 	}
 
-	return value, nil
+	if magnitude > math.MaxInt64 {
+		return 0, ErrGreaterThanMaxInt
+	}
+
+	return int64(magnitude), nil
 }
